@@ -113,6 +113,70 @@ fn tmpl_one(req: &Value) -> Value {
     })
 }
 
+fn tok_json(t: &cssparser::Token) -> Value {
+    use cssparser::Token::*;
+    match t {
+        Ident(s) => json!(["Ident", s.as_ref()]),
+        AtKeyword(s) => json!(["AtKeyword", s.as_ref()]),
+        Hash(s) => json!(["Hash", s.as_ref()]),
+        IDHash(s) => json!(["IDHash", s.as_ref()]),
+        QuotedString(s) => json!(["QuotedString", s.as_ref()]),
+        UnquotedUrl(s) => json!(["UnquotedUrl", s.as_ref()]),
+        Delim(c) => json!(["Delim", c.to_string()]),
+        Number { has_sign, value, int_value } => json!(["Number", has_sign, value, int_value]),
+        Percentage { has_sign, unit_value, int_value } => json!(["Percentage", has_sign, unit_value, int_value]),
+        Dimension { has_sign, value, int_value, unit } => json!(["Dimension", has_sign, value, int_value, unit.as_ref()]),
+        WhiteSpace(_) => json!(["WhiteSpace"]),
+        Comment(s) => json!(["Comment", s]),
+        Colon => json!(["Colon"]),
+        Semicolon => json!(["Semicolon"]),
+        Comma => json!(["Comma"]),
+        IncludeMatch => json!(["IncludeMatch"]),
+        DashMatch => json!(["DashMatch"]),
+        PrefixMatch => json!(["PrefixMatch"]),
+        SuffixMatch => json!(["SuffixMatch"]),
+        SubstringMatch => json!(["SubstringMatch"]),
+        CDO => json!(["CDO"]),
+        CDC => json!(["CDC"]),
+        Function(s) => json!(["Function", s.as_ref()]),
+        ParenthesisBlock => json!(["ParenthesisBlock"]),
+        SquareBracketBlock => json!(["SquareBracketBlock"]),
+        CurlyBracketBlock => json!(["CurlyBracketBlock"]),
+        BadUrl(s) => json!(["BadUrl", s.as_ref()]),
+        BadString(s) => json!(["BadString", s.as_ref()]),
+        CloseParenthesis => json!(["CloseParenthesis"]),
+        CloseSquareBracket => json!(["CloseSquareBracket"]),
+        CloseCurlyBracket => json!(["CloseCurlyBracket"]),
+    }
+}
+
+fn css_forest(p: &mut cssparser::Parser, comments: bool) -> Vec<Value> {
+    let mut out = vec![];
+    loop {
+        let loc = p.current_source_location();
+        let t = if comments { p.next_including_whitespace_and_comments() } else { p.next_including_whitespace() };
+        let t = match t {
+            Ok(t) => t.clone(),
+            Err(_) => break,
+        };
+        let mut j = tok_json(&t);
+        let is_block = matches!(
+            t,
+            cssparser::Token::Function(_)
+                | cssparser::Token::ParenthesisBlock
+                | cssparser::Token::SquareBracketBlock
+                | cssparser::Token::CurlyBracketBlock
+        );
+        let mut entry = json!({"t": j.take(), "line": loc.line, "col": loc.column});
+        if is_block {
+            let children: Result<Vec<Value>, cssparser::ParseError<()>> = p.parse_nested_block(|p| Ok(css_forest(p, comments)));
+            entry["children"] = json!(children.unwrap_or_default());
+        }
+        out.push(entry);
+    }
+    out
+}
+
 fn main() {
     let args: Vec<String> = std::env::args().collect();
     let cmd = args.get(1).map(|s| s.as_str()).unwrap_or("");
@@ -145,6 +209,21 @@ fn main() {
             // stdin: JSON array of requests
             let reqs: Vec<Value> = serde_json::from_str(&read_stdin()).unwrap();
             json!(reqs.iter().map(css_one).collect::<Vec<_>>())
+        }
+        "css-tokens" => {
+            // stdin: JSON array of css strings; output: token forest of each (comments skipped like the transformer does)
+            let reqs: Vec<String> = serde_json::from_str(&read_stdin()).unwrap();
+            json!(reqs
+                .iter()
+                .map(|s| {
+                    let s = s.clone();
+                    catch(move || {
+                        let mut pi = cssparser::ParserInput::new(&s);
+                        let mut p = cssparser::Parser::new(&mut pi);
+                        json!(css_forest(&mut p, false))
+                    })
+                })
+                .collect::<Vec<_>>())
         }
         "tmpl" => {
             let reqs: Vec<Value> = serde_json::from_str(&read_stdin()).unwrap();
